@@ -174,7 +174,11 @@ func (e *Engine) LoadSpec(dir string) error {
 		}
 		for n := range c.Loops {
 			if n < 0 || n > fi.NLoops {
-				e.contractErrs[k] = fmt.Sprintf("%s: contract of %s names loop %d but the function has %d loops", c.Pos, k, n, fi.NLoops)
+				// the function has fewer loops than when the contract was written (e.g. a loop was unrolled or replaced by a
+				// library call): the clauses of the missing loops are dropped and the rest of the contract is still checked;
+				// loops without invariants are unrolled up to a bound that is itself an obligation.
+				delete(c.Loops, n)
+				e.notes[fmt.Sprintf("contract of %s names loop %d but the function has %d loops: the clauses of that loop are ignored", k, n, fi.NLoops)] = true
 			}
 		}
 	}
